@@ -787,6 +787,12 @@ struct ProjSpec {
 }
 
 thread_local! {
+    /// when set: every module of the next project lives in this ONE stream (each at its own text offset; seeded
+    /// change C18-m17)
+    static SHARED_STREAM: std::cell::RefCell<Option<Vec<u8>>> = const { std::cell::RefCell::new(None) };
+}
+
+thread_local! {
     /// when set: the next project container is a version-3 file with exactly this number of FAT sectors, tables at
     /// the front, the project's streams at the very end (seeded change C18-m13 / C13-m9)
     static FAT_SECTORS: std::cell::Cell<usize> = const { std::cell::Cell::new(0) };
@@ -1085,7 +1091,13 @@ fn gen_project(rng: &mut Rng) -> ProjSpec {
         mods.push(ModSpec {
             name,
             stream,
-            offset: if rng.chance(1, 4) { 0 } else { rng.range(1, 3000) as usize },
+            // the performance cache in front of the source: absent, small, or several sectors (then the stream is
+            // held in regular sectors and the source starts beyond the first one; seeded change C18-m19)
+            offset: match rng.below(4) {
+                0 => 0,
+                1 => rng.range(4096, 20000) as usize,
+                _ => rng.range(1, 3000) as usize,
+            },
             text: (tb, ts),
             private: rng.chance(1, 3),
             readonly: rng.chance(1, 5),
@@ -1259,6 +1271,9 @@ fn compress_stream(cx: &mut Ctx, data: &[u8], rng: &mut Rng) -> Option<Vec<u8>> 
 
 fn run_project(cx: &mut Ctx, rng: &mut Rng) {
     let p = gen_project(rng);
+    if rng.chance(1, 25) {
+        return run_shared_stream_project(cx, rng);
+    }
     if rng.chance(1, 50) {
         let big = big_multibyte_project(*rng.pick(&[932u16, 65001]), rng.range(1, 2) as usize, rng.below(4) as usize);
         cx.rep.count("project:module-longer-than-64KiB-multibyte");
@@ -1375,6 +1390,38 @@ fn corpus_projects() -> Vec<(&'static str, ProjSpec)> {
 /// `dup`: a second directory entry with the name of the first module's stream — kind 0 an (empty) STORAGE entry
 /// (the designer storage of a UserForm has the name of the form's module stream), kind 1 another stream with other
 /// content (a same-named stream of another storage); `true` = the decoy precedes the module stream in the directory
+/// Two MODULE records naming the SAME stream at different text offsets: the stream holds, behind `o1` bytes of
+/// cache, a container of one raw chunk (module 1 = its 4096 bytes) whose tail is itself a complete container, the
+/// source of module 2. Each module is "the decompression of the container at its recorded offset of the named
+/// stream", so both must come out (code page 1252: every byte of module 1 has a character).
+fn run_shared_stream_project(cx: &mut Ctx, rng: &mut Rng) {
+    let mut t2 = String::new();
+    let want = rng.range(10, 400) as usize;
+    while t2.len() < want {
+        let w: &&str = rng.pick(&VBA_WORDS);
+        t2.push_str(w);
+    }
+    let Some(c2) = compress_stream(cx, t2.as_bytes(), rng) else { return };
+    if c2.len() > 3000 {
+        return;
+    }
+    let mut m1: Vec<u8> = (0..4096 - c2.len()).map(|_| *rng.pick(b"abc \r\n'=xyz0123")).collect();
+    m1.extend_from_slice(&c2);
+    let enc = Encoded { chunks: vec![Chunk::Raw(m1.clone())], source: m1.clone(), boundary: false, standard: true, modes: vec![Mode::Raw] };
+    let Some(c1) = run_container(cx, &enc, "shared-stream-raw") else { return };
+    let o1 = if rng.chance(1, 2) { rng.range(0, 600) } else { rng.range(600, 9000) } as usize;
+    let mut stream = rng.bytes(o1);
+    stream.extend_from_slice(&c1);
+    let text1: String = m1.iter().map(|b| if *b < 0x80 { *b as char } else { hi_char(1252, *b) }).collect();
+    let name = |s: &str| (s.as_bytes().to_vec(), s.to_string());
+    let module = |n: &str, off: usize, text: (Vec<u8>, String)| ModSpec { name: name(n), stream: name("Shared"), offset: off, text, private: false, readonly: false, doc: false };
+    let mods = vec![module("First", o1, (m1.clone(), text1)), module("Second", o1 + 3 + (4096 - c2.len()), (t2.as_bytes().to_vec(), t2.clone()))];
+    let p = ProjSpec { cp: 1252, compat: rng.chance(1, 2), refs: vec![], mods: if rng.chance(1, 2) { mods } else { mods.into_iter().rev().collect() } };
+    SHARED_STREAM.with(|c| *c.borrow_mut() = Some(stream));
+    cx.rep.count("project:two-modules-in-one-stream");
+    run_project_spec(cx, &p, "project-shared-stream", None, rng);
+}
+
 /// a project with one module of multi-byte text a few bytes longer than `blocks` x 64 KiB, the characters shifted by
 /// `shift` ASCII bytes so that, over the shifts 0..3, every alignment of a character relative to the 64 KiB
 /// boundaries occurs (seeded change C18-m10: text decoded in independent 64 KiB blocks)
@@ -1453,7 +1500,14 @@ fn run_project_spec(cx: &mut Ctx, p: &ProjSpec, label: &str, dup: Option<(u8, bo
     let Some(dirc) = compress_stream(cx, &dir, rng) else { return };
     let mut streams: Vec<(String, Vec<u8>)> = vec![("dir".into(), dirc.clone())];
     let mut first = true;
+    let shared = SHARED_STREAM.with(|c| c.borrow_mut().take());
+    if let Some(s) = &shared {
+        streams.push((p.mods[0].stream.1.clone(), s.clone()));
+    }
     for m in &p.mods {
+        if shared.is_some() {
+            break;
+        }
         let Some(c) = compress_stream(cx, &m.text.0, rng) else { return };
         let mut s = rng.bytes(m.offset);
         s.extend_from_slice(&c);
@@ -1477,9 +1531,14 @@ fn run_project_spec(cx: &mut Ctx, p: &ProjSpec, label: &str, dup: Option<(u8, bo
     }
     rng.shuffle(&mut streams[..]);
     let mut opts = CfbOpts::random(rng);
+    if rng.chance(1, 3) {
+        // over-allocated chains: spare (mini) sectors behind every stream (seeded change C18-m18)
+        opts.spare_sectors = rng.range(1, 3) as usize;
+        cx.rep.count("project:cfb-over-allocated-chains");
+    }
     let n_fat = FAT_SECTORS.with(|c| c.replace(0));
     if n_fat > 0 {
-        opts = CfbOpts { sector_size: 512, free_after_tables: true, unused_dirs: opts.unused_dirs, fill: opts.fill, ..CfbOpts::default() };
+        opts = CfbOpts { sector_size: 512, free_after_tables: true, unused_dirs: opts.unused_dirs, fill: opts.fill, spare_sectors: opts.spare_sectors, ..CfbOpts::default() };
         match verif_harness::cfbw::extra_free_for_fat_sectors(&streams, &opts, n_fat) {
             Some(f) => opts.extra_free = f - rng.below(100.min(f as u64 + 1)) as usize,
             None => return,
@@ -1997,6 +2056,13 @@ fn main() {
                     run_project_spec(&mut cx, &p, &format!("project-corpus:big-multibyte-{cp}-{blocks}x64K-shift{shift}"), None, &mut crng);
                     cx.rep.count("project:module-longer-than-64KiB-multibyte");
                 }
+            }
+        }
+        // two MODULE records sharing one stream
+        {
+            let mut r = Rng::new(17);
+            for _ in 0..3 {
+                run_shared_stream_project(&mut cx, &mut r);
             }
         }
         // a module called `Project` next to the root stream `PROJECT` (both directory orders), and a UTF-8 project
